@@ -596,6 +596,23 @@ pub fn base_records() -> Vec<(u32, Val)> {
     r
 }
 
+fn many_files(n: usize) -> Dev {
+    let s = |f: &dyn Fn(usize) -> String| Val::StrArray((0..n).map(|k| f(k).into_bytes()).collect());
+    Dev::Multi(vec![
+        Dev::Set(t(T::RPMTAG_BASENAMES), s(&|k| format!("f{}", k))),
+        Dev::Set(t(T::RPMTAG_DIRNAMES), s(&|k| format!("/d{}/", k))),
+        Dev::Set(t(T::RPMTAG_DIRINDEXES), Val::Int32((0..n as u32).rev().collect())),
+        Dev::Set(t(T::RPMTAG_FILEMODES), Val::Int16((0..n).map(|k| 0o100000 | (k as u16 & 0o777)).collect())),
+        Dev::Set(t(T::RPMTAG_FILEUSERNAME), s(&|k| format!("u{}", k))),
+        Dev::Set(t(T::RPMTAG_FILEGROUPNAME), s(&|k| format!("g{}", k))),
+        Dev::Set(t(T::RPMTAG_FILEDIGESTS), s(&|k| format!("{:064x}", k))),
+        Dev::Set(t(T::RPMTAG_FILEMTIMES), Val::Int32((0..n as u32).collect())),
+        Dev::Set(t(T::RPMTAG_FILESIZES), Val::Int32((0..n as u32).map(|k| k * 3).collect())),
+        Dev::Set(t(T::RPMTAG_FILEFLAGS), Val::Int32((0..n as u32).map(|k| k % 2).collect())),
+        Dev::Set(t(T::RPMTAG_FILELINKTOS), s(&|_| String::new())),
+    ])
+}
+
 #[derive(Clone, Debug)]
 pub enum Dev {
     Drop(u32),
@@ -776,14 +793,34 @@ fn groups() -> Vec<Group> {
             name: if half == 0 { "dependencies-1" } else { "dependencies-2" },
             tags: ds.iter().flat_map(|(_, a, b, c)| [t(*a), t(*b), t(*c)]).collect(),
             accessors: ds.iter().map(|(n, ..)| *n).collect(),
-            extra: vec![],
+            // lists of 255 / 256 / 257 members (a count that does not fit one byte)
+            extra: [255usize, 256, 257]
+                .iter()
+                .map(|n| {
+                    let (_, a, b, c) = ds[0];
+                    Dev::Multi(vec![
+                        Dev::Set(t(a), Val::StrArray((0..*n).map(|k| format!("d{}", k).into_bytes()).collect())),
+                        Dev::Set(t(b), Val::Int32((0..*n as u32).map(|k| 8 + (k % 3) * 2).collect())),
+                        Dev::Set(t(c), Val::StrArray((0..*n).map(|k| format!("{}.0", k).into_bytes()).collect())),
+                    ])
+                })
+                .collect(),
         });
     }
     g.push(Group {
         name: "changelog",
         tags: vec![t(T::RPMTAG_CHANGELOGNAME), t(T::RPMTAG_CHANGELOGTIME), t(T::RPMTAG_CHANGELOGTEXT)],
         accessors: vec!["get_changelog_entries"],
-        extra: vec![],
+        extra: [255usize, 256, 257]
+            .iter()
+            .map(|n| {
+                Dev::Multi(vec![
+                    Dev::Set(t(T::RPMTAG_CHANGELOGNAME), Val::StrArray((0..*n).map(|k| format!("N{} <n@x>", k).into_bytes()).collect())),
+                    Dev::Set(t(T::RPMTAG_CHANGELOGTIME), Val::Int32((0..*n as u32).map(|k| 1_000_000_000 + k).collect())),
+                    Dev::Set(t(T::RPMTAG_CHANGELOGTEXT), Val::StrArray((0..*n).map(|k| format!("- {}", k).into_bytes()).collect())),
+                ])
+            })
+            .collect(),
     });
     for half in 0..2 {
         let ss = &SCRIPTS[half * 4..half * 4 + 4];
@@ -813,6 +850,15 @@ fn groups() -> Vec<Group> {
             Dev::SigSet(SIG_FILESIGNATURES, Some(Val::strs(&["0302aa", "", "0302bb"]))),
             Dev::SigSet(SIG_FILESIGNATURES, Some(Val::strs(&["0302aa"]))),
             Dev::SigSet(SIG_FILESIGNATURES, Some(Val::Int32(vec![1, 2, 3]))),
+            // tags of the main header that no accessor reads but whose names resemble per-file data the accessors do read
+            // (file signatures as rpm's database stores them, file signature length, classes, colours, device numbers)
+            Dev::Set(5090, Val::strs(&["0302cc", "0302dd", "0302ee"])),
+            Dev::Set(5090, Val::Int32(vec![1, 2, 3])),
+            Dev::Set(5091, Val::Int32(vec![3])),
+            Dev::Set(1140, Val::strs(&["class-a", "class-b", "class-c"])),
+            Dev::Set(1095, Val::Int32(vec![1, 2, 0])),
+            Dev::Set(1033, Val::Int16(vec![1, 2, 3])),
+            Dev::Set(1096, Val::Int32(vec![7, 8, 9])),
             Dev::Set(t(T::RPMTAG_FILEMODES), Val::Int16(vec![0o040755, 0o010644, 0o107777])),
             // every supported digest algorithm with digests of the right length
             Dev::Multi(vec![Dev::Set(t(T::RPMTAG_FILEDIGESTALGO), Val::Int32(vec![1])), Dev::Set(t(T::RPMTAG_FILEDIGESTS), Val::strs(&[&d("c3", 16), &d("d4", 16), ""]))]),
@@ -829,6 +875,9 @@ fn groups() -> Vec<Group> {
             Dev::Set(t(T::RPMTAG_FILEDIGESTS), Val::strs(&[&format!("{}é", d("a", 62)), &d("b2", 32), ""])),
             // empty file list
             Dev::Set(t(T::RPMTAG_BASENAMES), Val::strs(&[])),
+            // 256 and 257 files in 256 and 257 directories
+            many_files(256),
+            many_files(257),
         ],
     });
     g
@@ -900,6 +949,50 @@ pub fn sweeps(ctx: &Ctx) -> Vec<Sweep> {
                 }
             }
         }).with_env(env));
+    }
+    // texts: a header that declares its encoding, with one string replaced by another valid UTF-8 text — the header stays
+    // well formed by construction, so a rejection is a violation here and not "a stricter parser"
+    {
+        let mut base3 = base_records();
+        base3.push((5062, Val::str("utf-8")));
+        let base3 = Arc::new(base3);
+        const TEXTS: [&str; 14] = ["", " ", "\u{fffd}", "a\u{fffd}b", "\u{feff}bom first", "e\u{301} decomposed", "\u{e9} composed", "\u{202e}right-to-left override", "\u{1f600}", "\u{10ffff}", "\u{7f}\u{1}control", "tab\there", "line\nbreak", "\u{2028}line separator"];
+        // (tag, kind: 0 = STRING, 1 = i18n (first item), 2 = string array (first item))
+        let mut targets: Vec<(u32, u8)> = STRINGS.iter().map(|(_, x)| (t(*x), 0u8)).collect();
+        targets.extend([(t(T::RPMTAG_SUMMARY), 1), (t(T::RPMTAG_DESCRIPTION), 1), (t(T::RPMTAG_GROUP), 1), (t(T::RPMTAG_CHANGELOGNAME), 2), (t(T::RPMTAG_CHANGELOGTEXT), 2), (t(T::RPMTAG_BASENAMES), 2), (t(T::RPMTAG_FILEUSERNAME), 2), (t(T::RPMTAG_FILELINKTOS), 2), (t(T::RPMTAG_PROVIDENAME), 2), (t(T::RPMTAG_REQUIREVERSION), 2), (t(T::RPMTAG_PREINPROG), 2)]);
+        let n = (targets.len() * TEXTS.len()) as u64;
+        v.push(Sweep::new("text-values", format!("a header that declares ENCODING utf-8 × each of {} string-bearing tags (STRING, I18NSTRING, STRING_ARRAY) × its (first) string replaced by each of {} valid UTF-8 texts (empty, U+FFFD alone and inside, a byte-order mark, composed and decomposed é, a right-to-left override, astral characters, control characters, line separators): the header is accepted and every accessor returns the stored text", targets.len(), TEXTS.len()), n, move |i, acc| {
+            let (tag, kind) = targets[(i / TEXTS.len() as u64) as usize];
+            let text = TEXTS[(i % TEXTS.len() as u64) as usize];
+            acc.evals += 1;
+            let old = base3.iter().find(|(t_, _)| *t_ == tag).map(|(_, v)| v.clone());
+            let val = match (kind, old) {
+                (0, _) => Val::str(text),
+                (1, Some(Val::I18n(mut a))) | (2, Some(Val::I18n(mut a))) => {
+                    if a.is_empty() { a.push(vec![]) }
+                    a[0] = text.as_bytes().to_vec();
+                    Val::I18n(a)
+                }
+                (_, Some(Val::StrArray(mut a))) => {
+                    if a.is_empty() { a.push(vec![]) }
+                    a[0] = text.as_bytes().to_vec();
+                    Val::StrArray(a)
+                }
+                (1, _) => Val::i18n(&[text]),
+                _ => Val::strs(&[text]),
+            };
+            let dev = Dev::Set(tag, val);
+            let x = build(&base3, &[&dev]);
+            let case = || json!({"bytes_hex": vlib::hex(&x), "tag": tag, "text": text, "text_as_code_points": text.chars().map(|c| format!("U+{:04X}", c as u32)).collect::<Vec<_>>()});
+            match parse_pkg(&x) {
+                Ok(Ok(_)) => {
+                    acc.nontrivial += 1;
+                    judge("text-values", &x, None, i, &case, acc);
+                }
+                Ok(Err(k)) => acc.viol(Violation::new("text-values", format!("a well-formed header is rejected because of the text of tag {}: {}", tag, k), case()).sig("clause", "well-formed-header-rejected").rank(i)),
+                Err(_) => acc.count("parse: panic (C04's business)"),
+            }
+        }));
     }
     // typed getters: each tag of a small set retyped to every type with counts 0..2
     let base2 = Arc::new(base_records());
